@@ -86,6 +86,20 @@ theorem C04_templates_no_errors (M : AModel) (h : M.wf = true) :
     exact templWf_of t (h t ht)
   rw [run_append, run_gdecls _ _ rfl, run_templs _ M.templates rfl rfl rfl rfl hw]
 
+/-! ### the same statement with the exception set made explicit -/
+
+/-- **C04 (outside the exception set).**  For every well-formed model (`wf0`: ids unique per template, references
+    resolve in their template, distinct names, at most one label of each kind) none of whose locations has the computed
+    exception shape, the document built from the XML is the document the model denotes.
+
+    Full-strength statement -- NOT provable, `C04_witness_rate_before_invariant` refutes it:
+      theorem C04_full (M : AModel) (h : M.wf0 = true) : (build (readXml (renderXml M))).doc = docOf M            -/
+theorem C04_partial (M : AModel) (h : M.wf0 = true) (hx : M.exceptionShapes = []) :
+    (build (readXml (renderXml M))).doc = docOf M :=
+  (C04_roundtrip M (wf_of M h hx)).1
+
+example : sampleModel.wf0 = true ∧ sampleModel.exceptionShapes = [] := by decide
+
 /-! ### nothing added, nothing dropped -/
 
 def BTempl.objectCount (t : BTempl) : Nat × Nat × Nat × Nat × Nat :=
@@ -185,20 +199,14 @@ def rateFirstModel : AModel :=
                     bps := [], init := some "id0", edges := [] }],
     insts := [], procs := [("T", false)] }
 
+example : rateFirstModel.wf0 = true ∧ rateFirstModel.exceptionShapes = [.rateBeforeInvariant] := by decide
+
 theorem C04_witness_rate_before_invariant :
     (build (readXml (renderXml rateFirstModel))).doc.templates.map (·.locs) =
       [[{ name := "L0", inv := some "RATE", rate := some "INV", urgent := false, committed := false }]] ∧
     (docOf rateFirstModel).templates.map (·.locs) =
       [[{ name := "L0", inv := some "INV", rate := some "RATE", urgent := false, committed := false }]] := by
   decide
-
-/-- the shapes of location label lists for which the round trip is *not* claimed (computed: the complement of
-    `labelsOrdered` restricted to lists of distinct kinds) -/
-def exceptionShapes : List (List LocKind) := [[.exponentialrate, .invariant]]
-
-theorem exceptionShapes_complete (a b : Key) (k1 k2 : LocKind) (hne : k1 ≠ k2) :
-    labelsOrdered [(k1, a), (k2, b)] = false ↔ [k1, k2] ∈ exceptionShapes := by
-  cases k1 <;> cases k2 <;> simp [labelsOrdered, exceptionShapes] at hne ⊢
 
 /-! ### tie to the current source (tables generated by translate/xml_tables.py) -/
 
